@@ -16,7 +16,7 @@ import (
 func init() {
 	register(&propDef{
 		id:      "C25",
-		explain: "Structural necessary conditions of 'every file the FS handler opens is closed exactly once and never while a response still reads it': (E1-file) typestate of fs.File / *os.File values in fs.go: a file obtained from an open call, or received by a function that takes ownership of it, is on every path closed, stored into an owning object, returned, or passed to a function that takes ownership - exactly once; functions that receive a file either always or never dispose of it (no mixed contracts); a failed open disposes of nothing; (E1-readers) in the request handler the reader count taken when the file is fetched from / put into the cache is given back exactly once on every path: decReadersCount, closing the reader, or handing the reader to the response as its body stream; (R-rmw) a tracking list (pendingFiles, bigFiles) that is read, filtered and written back is not written by a callee between the read and the write-back - otherwise entries appended in between are lost and their files never released; (E8) cache maps, pendingFiles, closed and readersCount are accessed only under cacheLock, bigFiles only under bigFilesLock. Not decided: eviction/reader interleavings, OS-level descriptor state.",
+		explain: "Structural necessary conditions of 'every file the FS handler opens is closed exactly once and never while a response still reads it': (E1-file) typestate of fs.File / *os.File values in fs.go: a file obtained from an open call, or received by a function that takes ownership of it, is on every path closed, stored into an owning object, returned, or passed to a function that takes ownership - exactly once; functions that receive a file either always or never dispose of it (no mixed contracts); a failed open disposes of nothing; (E1-readers) in the request handler the reader count taken when the file is fetched from / put into the cache is given back exactly once on every path: decReadersCount, closing the reader, or handing the reader to the response as its body stream; (R-rmw) a tracking list (pendingFiles, bigFiles) that is read, filtered and written back is not written by a callee between the read and the write-back - otherwise entries appended in between are lost and their files never released; (R-closed) every insertion into a map of cached files is made by the cache manager on a branch on which its closed flag was found false (after close nothing cleans the maps, and a file is released with its last reader); (E8) cache maps, pendingFiles, closed and readersCount are accessed only under cacheLock, bigFiles only under bigFilesLock. Not decided: eviction/reader interleavings, OS-level descriptor state.",
 		run:     runC25,
 	})
 }
@@ -565,4 +565,44 @@ func runC25(p *Prog, r *Report) {
 	tbl.exempt["newCacheManager"] = "constructor: the manager is not shared yet"
 	tbl.exempt["(*fsFile).Release"] = "runs when the file has no readers left and was removed from every list: nobody else holds it"
 	checkLockset(p, r, "E8", tbl, inFS)
+	closedManagerHoldsNothing(p, r)
+}
+
+// closedManagerHoldsNothing (R-closed): close() empties the cache maps once
+// and nothing cleans them afterwards (the cleaner is gone); from then on a
+// file is released by whoever gives back its last reader count. So a file put
+// into a map of a closed manager would be released under the map's nose and
+// found again - closed - by the next lookup-or-insert. Every insertion into a
+// map of cached files is made by a method of the manager under a branch on
+// which its 'closed' flag was found false.
+func closedManagerHoldsNothing(p *Prog, r *Report) {
+	n := 0
+	for _, fn := range p.funcsIn("") {
+		for _, b := range fn.Blocks {
+			for _, in := range b.Instrs {
+				mu, ok := in.(*ssa.MapUpdate)
+				if !ok {
+					continue
+				}
+				mt, ok := mu.Map.Type().Underlying().(*types.Map)
+				if !ok || !strings.HasSuffix(mt.Elem().String(), ".fsFile") {
+					continue
+				}
+				n++
+				good := false
+				var seen []string
+				if recvTypeName(fn) == "inMemoryCacheManager" {
+					for _, g := range guardsOf(b) {
+						seen = append(seen, fmt.Sprintf("%s=%v", g.Atom, g.Pol))
+						if g.Atom == "field:inMemoryCacheManager.closed" && !g.Pol {
+							good = true
+						}
+					}
+				}
+				r.Check("R-closed", fmt.Sprintf("%s: a file is inserted into a cache map only after the manager's closed flag was found false", funcName(fn)), good, p.Pos(mu.Pos()),
+					"a file opened after CleanStop/Close is put into a map that nothing cleans any more: the response that opened it releases it when it finishes (closed manager, last reader), the entry stays, and the next request for the path gets the released file back from SetFileToCache - it reads closed handles and closes them a second time", strings.Join(seen, " "))
+			}
+		}
+	}
+	r.Floor("R-closed", "insertions into maps of cached files", n, 1)
 }
